@@ -20,6 +20,47 @@ fn res_of(status: &J) -> J {
            "rc": status["rc"], "category": cat, "count": status.get("count").cloned().unwrap_or(json!(0)), "ms": 0})
 }
 
+/// JSON value returned by the C API -> tagged value
+fn tv_from_json(v: &J) -> J {
+    use nervusdb_query::Value;
+    fn to_value(v: &J) -> Value {
+        match v {
+            J::Null => Value::Null,
+            J::Bool(b) => Value::Bool(*b),
+            J::Number(n) => {
+                if let Some(i) = n.as_i64() { Value::Int(i) } else { Value::Float(n.as_f64().unwrap_or(f64::NAN)) }
+            }
+            J::String(s) => Value::String(s.clone()),
+            J::Array(a) => Value::List(a.iter().map(to_value).collect()),
+            J::Object(o) => Value::Map(o.iter().map(|(k, v)| (k.clone(), to_value(v))).collect()),
+        }
+    }
+    crate::cypher::tv(&to_value(v)).0
+}
+
+/// The graph as seen through the C handle itself (three Cypher reads), in the shape of `graph_dump`.
+fn dump_via_cypher(db: &CDb) -> J {
+    let nodes_q = db.query("MATCH (n) RETURN id(n) AS id, labels(n) AS labels, properties(n) AS props", &json!({}));
+    let rels_q = db.query("MATCH (a)-[r]->(b) RETURN id(a) AS src, type(r) AS type, id(b) AS dst, properties(r) AS props", &json!({}));
+    let inn_q = db.query("MATCH (b)<-[r]-(a) RETURN id(a) AS src, type(r) AS type, id(b) AS dst", &json!({}));
+    if nodes_q["rc"] != 0 || rels_q["rc"] != 0 || inn_q["rc"] != 0 {
+        return json!({"dump_failed": [nodes_q["message"], rels_q["message"], inn_q["message"]]});
+    }
+    let props = |o: &J| -> Vec<J> {
+        o.as_object().map(|m| m.iter().filter(|(_, v)| !v.is_null()).map(|(k, v)| json!([k, tv_from_json(v)])).collect()).unwrap_or_default()
+    };
+    let mut nodes: Vec<J> = nodes_q["rows"].as_array().cloned().unwrap_or_default().iter()
+        .map(|r| json!({"id": r["id"], "labels": r["labels"], "props": props(&r["props"])})).collect();
+    nodes.sort_by_key(|n| n["id"].as_u64().unwrap_or(0));
+    let rels: Vec<J> = rels_q["rows"].as_array().cloned().unwrap_or_default().iter().map(|r| {
+        let t = r["type"].as_str().unwrap_or("").to_string();
+        json!({"src": r["src"], "type": t, "tcp": t.chars().map(|c| c as u32).collect::<Vec<u32>>(), "dst": r["dst"],
+               "props": props(&r["props"]), "dead": false})
+    }).collect();
+    let inn: Vec<J> = inn_q["rows"].as_array().cloned().unwrap_or_default().iter().map(|r| json!([r["src"], r["type"], r["dst"]])).collect();
+    json!({"nodes": nodes, "rels": rels, "inn": inn})
+}
+
 fn dump_closed(path: &Path) -> J {
     match Db::open(path) {
         Ok(db) => {
@@ -53,9 +94,10 @@ pub fn run_sessions(sessions: &[J], out: &mut dyn Write, scratch: &Path) -> J {
             let r = db.execute_write(st.as_str().unwrap_or(""), &json!({}));
             setup_res.push(json!(if r["rc"] == 0 { "ok".to_string() } else { format!("err:{}", r["message"]) }));
         }
-        let _ = db0.close();
-        let g0 = dump_closed(&path);
-        let mut cur: Option<CDb> = CDb::open(&path.to_string_lossy()).ok();
+        // the handle stays open for the whole session (state kept inside the engine between statements is part
+        // of what is observed); only the final dump goes through a fresh Rust handle
+        let g0 = dump_via_cypher(&db0);
+        let mut cur: Option<CDb> = Some(db0);
         writeln!(out, "{}", json!({"ev": "session", "sid": sid, "open": "ok", "setup": setup_res, "api": "c", "graph": g0})).unwrap();
         for c in s["cases"].as_array().cloned().unwrap_or_default() {
             let Some(db) = cur.take() else { break };
@@ -100,20 +142,15 @@ pub fn run_sessions(sessions: &[J], out: &mut dyn Write, scratch: &Path) -> J {
                     ev["res"] = json!({"out": "err", "err": format!("unknown api {other}"), "rows": [], "canon": [], "cols": []});
                 }
             }
-            ev["close"] = db.close();
-            ev["graph"] = dump_closed(&path);
+            ev["graph"] = dump_via_cypher(&db);
             writeln!(out, "{}", ev).unwrap();
-            cur = match CDb::open(&path.to_string_lossy()) {
-                Ok(d) => Some(d),
-                Err(e) => {
-                    writeln!(out, "{}", json!({"ev": "case", "sid": sid, "cid": -1, "kind": "reopen-failed", "mode": "c", "query": "",
-                                                "params": [], "meta": {"none": true}, "res": res_of(&e)})).unwrap();
-                    None
-                }
-            };
+            cur = Some(db);
         }
         if let Some(db) = cur.take() {
-            let _ = db.close();
+            let closed = db.close();
+            // after the session: the storage-level dump of the closed files must agree with the last Cypher dump
+            writeln!(out, "{}", json!({"ev": "case", "sid": sid, "cid": 100000, "kind": "cfinal", "mode": "c", "api": "c", "query": "#close",
+                                        "params": [], "meta": {"none": true}, "res": res_of(&closed), "graph": dump_closed(&path)})).unwrap();
         }
         let _ = std::fs::remove_dir_all(&dir);
     }
